@@ -214,8 +214,11 @@ func insertMethod(class, super slip.Class, method *slip.Method, combo *slip.Comb
 	if pos < len(m.Combinations) && m.Combinations[pos].From == class {
 		pos++
 	}
+	// Skip the combinations of the flavors that precede super in the
+	// precedence list of the class. The new combination goes before any
+	// combination of a flavor that follows super.
 	for _, f := range class.InheritsList() {
-		if len(m.Combinations) <= pos || m.Combinations[pos].From == super {
+		if f == super || len(m.Combinations) <= pos {
 			break
 		}
 		if m.Combinations[pos].From == f {
